@@ -42,8 +42,8 @@ FINDING_NOTELESS = "C08-unflagged-noteless"
 def setup_worker() -> None:
     from zorg.service.compiler._file_compiler import ErrorManager, ZorgFileCompiler as Z
 
-    harness.COUNTERS.watch("_add_note", Z._add_note)
-    harness.COUNTERS.watch("syntaxError", ErrorManager.syntaxError)
+    harness.COUNTERS.watch_attr(Z, "_add_note")
+    harness.COUNTERS.watch_attr(ErrorManager, "syntaxError")
 
 
 def plan(tier: str, seed: int) -> list[dict]:
